@@ -97,7 +97,7 @@ theorem never_deadlocked {idx : Nat → Nat} {progs : List (List (List Instr))} 
   never_deadlocked' hH h
 
 /-- `Hier` is satisfiable by programs with real nesting, re-entrant reads and rmv of a key being read -/
-example : Hier (fun k => k) [[.getSet 0 (.ok 1), .getSet 0 (.ok 2), .getSet 1 .fail, .exit, .rmv 0, .exit], [.rmv 1]] = true := by decide
+example : Hier (fun k => k) [[.getSet 0 (.ok 1), .getSet 0 (.ok 2), .getSet 1 .fail, .exit, .rmv 0 false, .exit], [.rmv 1 true]] = true := by decide
 
 /-- `Hier` is necessary: two well-nested callers (no collisions at all) that each read one key
 and remove the other one's key reach a state where both wait forever (known finding C19-F1;
